@@ -109,6 +109,10 @@ def rd_tp(t, **extra):
     kw.update(rd_tod(t))
     kw["time_zone_hour"] = t.z()
     kw["time_zone_minute"] = t.z()
+    if not 0 <= kw["year"] <= 9999:
+        # years outside 0000-9999 need the agreed expanded year digits to be
+        # printable at all (str() raises OverflowError otherwise, by design)
+        kw["num_expanded_year_digits"] = 2
     kw.update(extra)
     return TimePoint(**kw)
 
@@ -579,6 +583,139 @@ def op_addsteps(t):
 
 OPS.update({"addstaged": op_addstaged, "addmonths": op_addmonths,
             "addsteps": op_addsteps})
+
+
+def rd_opt(t, rd):
+    if t.t[t.i] == "-":
+        t.i += 1
+        return None
+    return rd(t)
+
+
+def rd_rec(t):
+    from metomi.isodatetime.data import TimeRecurrence
+    n = rd_opt(t, lambda x: x.z())
+    s = rd_opt(t, rd_tp)
+    d = rd_opt(t, rd_dur)
+    e = rd_opt(t, rd_tp)
+    return TimeRecurrence(repetitions=n, start_point=s, duration=d, end_point=e)
+
+
+def sh_o(f, x):
+    return "-" if x is None else f(x)
+
+
+def take(it, k):
+    out = []
+    for x in it:
+        out.append(x)
+        if len(out) >= k:
+            break
+    return out
+
+
+def sh_rec(r):
+    head = [sh_o(str, r.repetitions), sh_o(sh_tp, r.start_point),
+            sh_o(sh_dur, r.duration), sh_o(sh_tp, r.end_point),
+            str(r.format_number)]
+    return " ; ".join(head + [sh_tp(p) for p in take(r, 12)])
+
+
+def op_rmake(t):
+    _md(t)
+    return sh_rec(rd_rec(t))
+
+
+def op_rquery(t):
+    _md(t)
+    r = rd_rec(t)
+    p = rd_operand(t)
+    i = t.z()
+    out = [sh_tp(p), _b(r.get_is_valid(p))]
+    if r.start_point is None:
+        out.append("NOSTART")
+    else:
+        fa = r.get_first_after(p)
+        out.append("None" if fa is None else sh_tp(fa))
+    out.append(sh_o(sh_tp, r.get_next(p)))
+    out.append(sh_o(sh_tp, r.get_prev(p)))
+    try:
+        out.append(sh_tp(r[i]))
+    except IndexError:
+        out.append("-")
+    return " ; ".join(out)
+
+
+def op_radd(t):
+    _md(t)
+    r = rd_rec(t)
+    d = rd_dur(t)
+    r1, r1b = r + d, d + r
+    if sh_rec(r1) != sh_rec(r1b):
+        return "INCOHERENT r+d=%s d+r=%s" % (sh_rec(r1), sh_rec(r1b))
+    try:
+        r2 = r1 - d
+        eq = r2 == r
+        back = "back " + _b(eq)
+        if eq and hash(r2) != hash(r):
+            back = "back HASHDIFF"
+    except ValueError:
+        back = "back ERR"
+    return sh_rec(r1) + " ; " + back
+
+
+def op_req(t):
+    _md(t)
+    a = rd_rec(t)
+    b = rd_rec(t)
+    eq, ne = a == b, a != b
+    if eq == ne:
+        return "INCOHERENT"
+    if eq and hash(a) != hash(b):
+        return "HASHDIFF"
+    return _b(eq)
+
+
+def op_rtext(t):
+    """str(r), and whether parse(str(r)) == r with the same first points."""
+    from metomi.isodatetime.parsers import TimeRecurrenceParser
+    _md(t)
+    r = rd_rec(t)
+    text = str(r)
+    r2 = TimeRecurrenceParser().parse(text)
+    same = [sh_tp(p) for p in take(r, 12)] == [sh_tp(p) for p in take(r2, 12)]
+    return "%s ; eq %s ; pts %s ; hash %s ; fix %s" % (
+        text, _b(r2 == r), _b(same), _b(hash(r2) == hash(r)),
+        _b(str(r2) == text))
+
+
+OPS.update({"rmake": op_rmake, "rquery": op_rquery, "radd": op_radd,
+            "req": op_req, "rtext": op_rtext})
+
+
+def rd_trunc(t):
+    names = ["hour_of_day", "minute_of_hour", "second_of_minute",
+             "day_of_week", "day_of_month", "day_of_year", "week_of_year",
+             "time_zone_hour", "time_zone_minute"]
+    kw = {}
+    for i, nm in enumerate(names):
+        v = rd_opt(t, (lambda x: num(x.q())) if i < 3 else (lambda x: x.z()))
+        if v is not None:
+            kw[nm] = v
+    return TimePoint(truncated=True, **kw)
+
+
+def op_tadd(t):
+    _md(t)
+    tr = rd_trunc(t)
+    p = rd_tp(t)
+    r1, r2 = tr + p, p + tr
+    if sh_tp(r1) != sh_tp(r2):
+        return "INCOHERENT t+p=%s p+t=%s" % (sh_tp(r1), sh_tp(r2))
+    return "%s ; %s" % (sh_tp(r1), sh_tp(tr + r1))
+
+
+OPS["tadd"] = op_tadd
 
 
 def eval_line(line, timeout=10):
